@@ -223,3 +223,105 @@ class empty_row:
 
     def post_all_null(result, row):
         return result == all(c in ('.', '', '*') for c in row)
+
+
+# ------------------------------------------------------------------------------------------------ options
+from contracts.c11 import selector, as_set, is_bad
+from contracts.spec_cat import sel
+from pyvc.ghost import members
+from kernpy.core.generic import Generic
+from kernpy.core.tokens import HEADERS
+
+GEN = 'kernpy.core.generic.Generic.'
+OPTION_KEYS = ['spine_types', 'from_measure', 'to_measure', 'kern_type', 'instruments', 'show_measure_numbers', 'spine_ids']
+
+
+def maybe(g, name, value_builder):
+    return None if g.choice(name + '.none', [True, False]) else value_builder()
+
+
+@contract(EX + 'ExportOptions.default', props=PROPS + ['C14'])
+class options_default:
+    """fresh option object with fresh collections: all header types, every category, kern encoding, no ranges, no ids"""
+    def inputs(g):
+        return {'cls': ExportOptions}
+
+    modifies = ()
+
+    def post_defaults(result):
+        return conj(result.spine_types == HEADERS, result.spine_types is not HEADERS,
+                    set(result.token_categories) == set(members(TokenCategory)), result.from_measure is None, result.to_measure is None,
+                    result.kern_type == Encoding.normalizedKern, result.instruments is None, result.show_measure_numbers == False,
+                    result.spine_ids is None)
+
+
+@contract(GEN + 'parse_options_to_ExportOptions', props=PROPS + ['C14'])
+class parse_options:
+    """Keyword options -> ExportOptions: None leaves the default, any other value is stored as given; the selected categories are
+    Clo(include) \\ Clo(exclude).  Nothing passed in is modified (the options object is fresh)."""
+    def inputs(g):
+        inc = selector(g, 'include')
+        exc = g.choice('exclude.shape', ['none', 'set'])
+        return {'cls': Generic, 'include': inc, 'exclude': None if exc == 'none' else g.enum_set('exclude', TokenCategory),
+                'spine_types': maybe(g, 'spine_types', lambda: g.str_subset('spine_types', ['**kern', '**text', '**silbe'])),
+                'from_measure': maybe(g, 'from_measure', lambda: g.int('from_measure')),
+                'to_measure': maybe(g, 'to_measure', lambda: g.int('to_measure')),
+                'kern_type': maybe(g, 'kern_type', lambda: g.enum('kern_type', Encoding)),
+                'instruments': None,
+                'show_measure_numbers': maybe(g, 'show_measure_numbers', lambda: g.bool('show_measure_numbers')),
+                'spine_ids': maybe(g, 'spine_ids', lambda: g.int_set('spine_ids'))}
+
+    modifies = ()
+
+    def post_selected_categories(result, include, exclude):
+        return result.token_categories == sel(as_set(include, set(members(TokenCategory))), as_set(exclude, set()))
+
+    def post_given_or_default(result, spine_types, from_measure, to_measure, kern_type, show_measure_numbers, spine_ids):
+        return conj(result.spine_types is spine_types if spine_types is not None else result.spine_types == HEADERS,
+                    result.from_measure is None if from_measure is None else result.from_measure == from_measure,
+                    result.to_measure is None if to_measure is None else result.to_measure == to_measure,
+                    result.kern_type == (Encoding.normalizedKern if kern_type is None else kern_type),
+                    result.show_measure_numbers == (False if show_measure_numbers is None else show_measure_numbers),
+                    result.spine_ids is spine_ids)
+
+    def raises(include, exclude):
+        return {'ValueError': disj(is_bad(include), is_bad(exclude))}
+
+
+# ------------------------------------------------------------------------------------------------ lemmas
+from contracts.spec_tokens import render_note
+from contracts.shapes import mk_note
+
+
+@contract(None, props=PROPS)
+class filter_is_deletion:
+    """C05: rendering a note under a category selection equals rendering the note whose unselected parts were deleted, for every
+    selection and every converter: selected material is neither altered nor reordered; selecting everything is the identity."""
+    def inputs(g):
+        conv = g.choice('conv', ['none', 'fn'])
+        return {'tok': mk_note(g), 'keep': g.cat_pred('sel', TokenCategory), 'conv': None if conv == 'none' else g.str_fn('Conv')}
+
+    def post_deletion(tok, keep, conv):
+        pd, dec = tok.pitch_duration_subtokens, tok.decoration_subtokens
+        return render_note(pd, dec, keep, conv) == render_note([s for s in pd if keep(s.category)], [s for s in dec if keep(s.category)], None, conv)
+
+    def post_select_all_is_identity(tok, conv):
+        pd, dec = tok.pitch_duration_subtokens, tok.decoration_subtokens
+        return render_note(pd, dec, lambda c: c in set(members(TokenCategory)), conv) == render_note(pd, dec, None, conv)
+
+
+@contract(None, props=['C13'])
+class explicit_defaults:
+    """C13: passing every option's default value explicitly gives options that are observably equal to omitting it (real code)"""
+    def inputs(g):
+        return {}
+
+    def post_same_options():
+        a = Generic.parse_options_to_ExportOptions(spine_types=None, include=None, exclude=None, from_measure=None, to_measure=None,
+                                                   kern_type=None, instruments=None, show_measure_numbers=None, spine_ids=None)
+        b = Generic.parse_options_to_ExportOptions(spine_types=list(HEADERS), include=set(members(TokenCategory)), exclude=set(),
+                                                   from_measure=None, to_measure=None, kern_type=Encoding.normalizedKern, instruments=None,
+                                                   show_measure_numbers=False, spine_ids=None)
+        return conj(set(a.spine_types) == set(b.spine_types), a.token_categories == b.token_categories, a.from_measure == b.from_measure,
+                    a.to_measure == b.to_measure, a.kern_type == b.kern_type, a.instruments == b.instruments,
+                    a.show_measure_numbers == b.show_measure_numbers, a.spine_ids == b.spine_ids)
